@@ -85,6 +85,9 @@ func guardValue(doc document.Document, o gOp) interface{} {
 		return map[string]interface{}{"id": "evil", "type": "JsonWebKey2020"}
 	case "":
 		return map[string]interface{}{"publicKey": []interface{}{}}
+	case "/didDocument":
+		// (a whole document, as a resolution result carries one)
+		return map[string]interface{}{"id": "did:evil:1", "publicKey": []interface{}{map[string]interface{}{"id": "evil"}}, "service": []interface{}{}}
 	}
 
 	return "evil"
@@ -117,6 +120,14 @@ func guardPatch(doc document.Document, ops []gOp) patch.Patch {
 			m["value"] = 1 // equals /other/a and /public~1Key-less documents' nothing else: a test never writes
 		case "move", "copy":
 			m[fromName] = o.From
+		}
+
+		if o.Spell == "Extra" {
+			if o.Kind == "move" || o.Kind == "copy" {
+				m["value"] = []interface{}{0, nil, "v"}[len(o.From)%3]
+			} else {
+				m["from"] = o.From
+			}
 		}
 
 		l = append(l, m)
